@@ -723,7 +723,7 @@ class Synth:
         c = self.pick(self.loops())
         if not c:
             return None
-        return [D_node(c[0]), L(self.rng.choice(["0", "1", "2", "3", f"{c[1].lo} + 1"]))]
+        return [D_node(c[0]), L(self.rng.choice(["0", "1", "2", "3", "4", "8", f"{c[1].lo} + 1", f"{c[1].lo} + 4"]))]
 
     def s_reorder_loops(self):
         c = self.pick(self.nested_loops())
